@@ -884,6 +884,10 @@ fn round_trip(out: &mut Out, rc: &mut ReqCases, text: &str, vars: &[(String, Str
         Some(r3) => if !same(&r3) { out.oracle_fail("C08", "serde round trip returns a different requirement", input.clone()); },
         None => out.oracle_fail("C08", "serde round trip fails", input.clone()),
     }
+    // the serialized form is the displayed text; reading it back must not depend on how the JSON string is written / owned
+    if de_sources::<Requirement<VerbatimUrl>>(&shown).iter().any(|d| !d.as_ref().is_some_and(|x| same(x))) {
+        out.oracle_fail("C08", "deserialization of the displayed text depends on how the JSON string is written / owned (plain, escaped, owned value)", input.clone());
+    }
     // with the extension feature paths and file URLs are rebuilt relative to a working directory: the same
     // round trip through the entry point that takes one
     #[cfg(feature = "ext")]
